@@ -13,6 +13,7 @@ RULES = {
     "R-10.2": "every key used with self.nodes / self.changed / self.delegations in a Version class is the result of _validate_name or _maybe_cow_with_name (or comes from the map itself)",
     "R-10.3": "nodes are mutated only after copy-on-write; the published zone.nodes is replaced only at commit; a writable version copies the map",
     "R-10.4": "__exit__ commits iff no exception else rolls back; _end marks the transaction ended on every exit; _end_transaction ends exactly once",
+    "R-10.6": "Transaction._add merges into the stored rdataset or into a copy made from it alone: the mutable copy of a committed (immutable) rdataset takes class, type, covers, records and TTL from the stored one, nothing from the rdataset being added",
     "R-10.5": "btreezone overrides keep the base obligations (changed.add on delete, empty-node removal, replace/delete on the cowed node)",
 }
 
@@ -346,6 +347,21 @@ def run(model, rep, tier):
     rep.check("super()._maybe_cow_with_name(name)" in src(ub.node), "R-10.5", ub.qualname, where(ub, ub.node), "override delegates to the base cow",
               "override no longer delegates to the base copy-on-write", stmt="delegates")
     rep.assume("check callbacks registered with check_put_rdataset/... are user code and outside the analysed program")
+    # ---------------------------------------------------------------- R-10.6
+    ta = model.func("dns.transaction.Transaction._add")
+    copies = [n for n in ast.walk(ta.node) if isinstance(n, ast.If) and "isinstance(existing, dns.rdataset.ImmutableRdataset)" in " ".join(src(n.test).split())]
+    if len(copies) != 1:
+        rep.blind("R-10.6", ta.qualname, where(ta, ta.node), "the mutable-copy arm `if isinstance(existing, ImmutableRdataset)` was not found", stmt="merge-base")
+    else:
+        body = copies[0].body
+        assigned = {t_.id for s_ in body for x in ast.walk(s_) if isinstance(x, ast.Assign) for t_ in x.targets if isinstance(t_, ast.Name)}
+        used = {x.id for s_ in body for x in ast.walk(s_) if isinstance(x, ast.Name) and isinstance(x.ctx, ast.Load)} - assigned - {"existing", "dns"}
+        rebinds = any(isinstance(x, ast.Assign) and any(src(t_) == "existing" for t_ in x.targets) for s_ in body for x in ast.walk(s_))
+        rep.check(not used and rebinds, "R-10.6", ta.qualname, where(ta, copies[0]), "the mutable copy is built from `existing` alone",
+                  f"the mutable copy of the stored rdataset also depends on {sorted(used)}: properties of the rdataset being added (e.g. its TTL) leak into the merge base, so TTL minimisation differs between zone kinds",
+                  stmt="merge-base")
+        un = [c for c in ast.walk(ta.node) if isinstance(c, ast.Call) and src(c.func) == "existing.union"]
+        rep.check(len(un) == 1 and [src(a) for a in un[0].args] == ["rdataset"], "R-10.6", ta.qualname, where(ta, ta.node), "the result is existing.union(rdataset)", "the merge is no longer existing.union(rdataset)", stmt="merge-union")
     rep.meta["explanation"] = (
         "Typestate (dominance of _check_ended/_check_read_only before hook-reaching calls, with self-call summaries), sanitiser-before-sink "
         "taint analysis of map keys with reaching definitions, ownership of mutated nodes, and CFG shape rules for the exits. "
@@ -523,6 +539,9 @@ def _for_node_kinds(model, f, cfg, rd, d) -> set:
 
 
 WITNESSES = [
+    {"id": "c10-merge-base-takes-new-ttl", "rule": "R-10.6", "file": "dns/transaction.py", "expect": "fires",
+     "old": "                        trds = dns.rdataset.Rdataset(\n                            existing.rdclass, existing.rdtype, existing.covers\n                        )\n                        trds.update(existing)\n                        existing = trds",
+     "new": "                        existing = dns.rdataset.from_rdata_list(rdataset.ttl, existing)"},
     {"id": "c10-delete-raw-key", "rule": "R-10.2", "file": "dns/zone.py", "expect": "fires",
      "old": "        node, name = self._maybe_cow_with_name(name)\n        node.delete_rdataset(self.zone.rdclass, rdtype, covers)",
      "new": "        node = self._maybe_cow(name)\n        node.delete_rdataset(self.zone.rdclass, rdtype, covers)"},
